@@ -43,11 +43,18 @@ class LoopSocket:
             raise core.HarnessError('LoopSocket.recv would block forever')
         return data
 
-    def close(self):
+    def close(self, clean=True):
+        '''the peer goes away: cleanly (FIN -> ConnectionDone) or not
+        (reset / timeout -> ConnectionLost), as Twisted reports it'''
         if not self.closed:
+            from twisted.internet import error
+            from twisted.python import failure
+
             self.closed = True
             self.transport.closed = True
-            self.proto.connectionLost(None)
+            reason = failure.Failure(
+                error.ConnectionDone() if clean else error.ConnectionLost())
+            self.proto.connectionLost(reason)
 
     def shutdown(self, _how):
         self.close()
